@@ -1,4 +1,6 @@
 import LoguruModel.FileSink.CompLemmas
+import LoguruModel.FileSink.RenamePathLemmas
+import LoguruModel.FileSink.RotateUsable
 /-!
 C18 – compression is lossless (relative to the codec contract), removes the source only after success,
 never overwrites.  Only property theorems and non-vacuity examples.  `compression` is the model of
@@ -286,5 +288,81 @@ example :
     (compression .add p 6 w).2.fs.get p = some (.file [1, 2]) ∧
     (compression .add p 6 w).2.fs.get (.arc (.ren p 6 1)) = some (.file [7]) ∧
     (compression .add p 6 w).2.fs.get (.arc p) = some (.arch .broken []) := by decide +kernel
+
+/-! ### round 5: the name an existing archive is moved to, on path strings -/
+
+/-- **collision_rename_target**: `Compression.compression` moves an existing `<file>.<ext>` to
+`generate_rename_path(root, ext_before + ext, ctime)` with `root, ext_before = splitext(path_in)`.  For EVERY set of
+existing paths that name (templates regenerated from /repo) exists, is not an existing path, is neither the
+source `path_in = root + ext_before` nor the archive target `path_out = path_in + ext`, and carries the least
+free counter – collision chains of any length and with any holes. -/
+theorem collision_rename_target (existing : List Str) (root extBefore ext date : Str) :
+    ∃ k, generateRenamePath existing root date (extBefore ++ ext) = some (candStr root date (extBefore ++ ext) (1 + k)) ∧
+      candStr root date (extBefore ++ ext) (1 + k) ∉ existing ∧
+      (∀ j, j < k → candStr root date (extBefore ++ ext) (1 + j) ∈ existing) ∧
+      candStr root date (extBefore ++ ext) (1 + k) ≠ (root ++ extBefore) ++ ext ∧
+      candStr root date (extBefore ++ ext) (1 + k) ≠ root ++ extBefore := by
+  unfold generateRenamePath
+  cases h : probeLoop (fun s => existing.contains s) (candStr root date (extBefore ++ ext)) (existing.length + 1)
+      Gen.renameFirstCounter with
+  | none =>
+    have hall := probeLoop_none _ _ _ _ h
+    have := pigeonhole_list (candStr root date (extBefore ++ ext)) (candStr_injective root date (extBefore ++ ext))
+      Gen.renameFirstCounter (existing.length + 1) existing (fun i hi => by simpa using hall i hi)
+    omega
+  | some r =>
+    obtain ⟨k, h1, h2, h3⟩ := probeLoop_some _ _ _ _ r h
+    refine ⟨k, by rw [h1]; rfl, ?_, ?_, ?_, ?_⟩
+    · have : ¬ (existing.contains (candStr root date (extBefore ++ ext) (1 + k)) = true) := by
+        rw [show (1 + k) = Gen.renameFirstCounter + k from rfl, h2]; simp
+      simpa using this
+    · intro j hj
+      have := h3 j hj
+      simpa [Gen.renameFirstCounter] using this
+    · rw [List.append_assoc]; exact candStr_ne_source root date (extBefore ++ ext) _
+    · intro he
+      have hl := congrArg List.length he
+      by_cases hc : 1 + k = 1
+      · rw [hc, candStr_first] at hl; simp at hl; omega
+      · rw [candStr_loop _ _ _ _ hc] at hl; simp at hl; omega
+
+/-- non-vacuity: `app.D.log.gz` and `app.D.2.log.gz` exist – the old archive goes to counter 3 -/
+example :
+    generateRenamePath ["app.log.gz".toList, "app.D.log.gz".toList, "app.D.2.log.gz".toList] "app".toList "D".toList
+      (".log".toList ++ ".gz".toList) = some "app.D.3.log.gz".toList := by decide +kernel
+
+/-! ### round 5: the compress functions as primitive sequences regenerated from /repo -/
+
+/-- tie G (round 5): what the `with` nests of the three compress functions do, in execution order – the source is
+opened FIRST and in BINARY mode by `copy_compress` (bytes are copied, whatever the sink's encoding and whatever line
+ends the content has), the archive is opened before the transfer, tar/zip members are stored under the base name,
+the archive is closed before the source -/
+theorem compress_primitives :
+    Gen.compressPrims .copy = [.openSource true, .openArchive, .transfer false, .closeArchive, .closeSource] ∧
+    Gen.compressPrims .add = [.openArchive, .transfer true, .closeArchive] ∧
+    Gen.compressPrims .write = [.openArchive, .transfer true, .closeArchive] := by decide
+
+/-- **compress_function_is_generated**: the compress function every theorem of this file speaks about is the
+interpreter of `Gen.compressPrims`; it equals the hand-written primitive sequence (`compressFnHand`) -/
+theorem compress_function_is_generated (k : CompKind) (p out : Name) :
+    compressFn k p out = seqM ((Gen.compressPrims k).map (cPrim k p out)) ∧
+    compressFn k p out = compressFnHand k p out :=
+  ⟨rfl, compressFn_eq k p out⟩
+
+/-- **compression_succeeds_without_faults**: with no fault pending, `Compression.compression` of an existing file
+returns normally – for every directory, i.e. every collision chain (the counter loop always finds a free name) – and
+then, by `archive_roundtrip`, the archive holds exactly the file's content and the source is gone. -/
+theorem compression_succeeds_without_faults (k : CompKind) (p : Name) (ct : Nat) (w : W) (e : Entry)
+    (hf : w.faults = []) (hc : w.closed = false) (he : w.fs.get p = some e) :
+    ∃ w', compression k p ct w = (.ok (), w') ∧
+      w'.fs.get (.arc p) = some (.arch (innerOf k p) e.content) ∧ w'.fs.get p = none := by
+  have hp : w.fs.has p = true := (has_iff _ _).2 ⟨e, he⟩
+  have h := compression_GF k p ct w.fs hp w ⟨hf, hc, rfl⟩
+  match hm : compression k p ct w with
+  | (.ok u, w') =>
+    refine ⟨w', rfl, ?_⟩
+    have := archive_roundtrip (β := List Nat) ⟨id, some, fun _ => rfl⟩ k p ct w w' e u he hm
+    exact ⟨this.1, this.2.1⟩
+  | (.error err, w') => rw [hm] at h; exact h.elim
 
 end C18
